@@ -70,6 +70,18 @@ func (u *Unit) event(fr *Frame, st *State, name string, binds map[string]Val, wh
 	if strings.HasPrefix(name, "spawn ") {
 		u.bump(st, "spawns:"+name[6:], 1)
 	}
+	// a renamed function is still known to the contracts by its old name
+	if i := strings.Index(name, " "); i > 0 {
+		if old, ok := u.eng.renamed[name[i+1:]]; ok {
+			alts = append(append([]string{}, alts...), name[:i+1]+old)
+			switch name[:i] {
+			case "call":
+				u.bump(st, "calls:"+old, 1)
+			case "spawn":
+				u.bump(st, "spawns:"+old, 1)
+			}
+		}
+	}
 	var hooks []*Hook
 	if al := u.eng.cs.Always; al != nil {
 		for i := range al.Hooks {
